@@ -3406,6 +3406,7 @@ static size_t ZSTDv05_decompress_continueDCtx(ZSTDv05_DCtx* dctx,
         {
         case bt_compressed:
             decodedSize = ZSTDv05_decompressBlock_internal(dctx, op, oend-op, ip, cBlockSize);
+            if (!ZSTDv05_isError(decodedSize) && decodedSize > BLOCKSIZE) return ERROR(corruption_detected);   /* ZSTD_decompressBound() counts on it */
             break;
         case bt_raw :
             decodedSize = ZSTDv05_copyRawBlock(op, oend-op, ip, cBlockSize);
